@@ -378,11 +378,20 @@ def check_export(run):
     h5 = d / "rate.h5"
     n = 3 if run.tier == "quick" else 8
     feats, users, kept = {}, {}, []
+    # distinct file hash per curve; the files are NAMED against the order of
+    # their hashes (the container lists curves by hash, not by name)
+    tmpf = []
     for i in range(n):
-        src = d / f"curve{i}.jpk-force"
-        shutil.copy(jpk, src)
-        with open(src, "ab") as f:
-            f.write(b"\0" * (i + 1))      # distinct file hash per curve
+        t_ = d / f"tmp{i}.jpk-force"
+        shutil.copy(jpk, t_)
+        with open(t_, "ab") as f:
+            f.write(b"\0" * (i + 1))
+        tmpf.append((rio.hash_file(t_), i, t_))
+    name_of = {i: rank for rank, (_, i, _) in enumerate(
+        sorted(tmpf, reverse=True))}
+    for i in range(n):
+        src = d / f"curve{name_of[i]}.jpk-force"
+        tmpf[i][2].rename(src)
         idnt = IndentationGroup(src)[0]
         idnt.apply_preprocessing(["compute_tip_position",
                                   "correct_force_offset",
@@ -407,7 +416,13 @@ def check_export(run):
     try:
         rm.export_training_set(out)
         names = IndentationRater.get_feature_names(which_type="all")
-        order = [r["comment"] for r in rm.ratings]
+        # container order, read independently of the manager
+        import h5py
+        with h5py.File(h5, "r") as hh:
+            order = [hh["analysis"][kk].attrs["user comment"]
+                     for kk in hh["analysis"]]
+        order = [o.decode() if isinstance(o, bytes) else str(o)
+                 for o in order]
         X, y, fn = IndentationRater.load_training_set(
             path=out, names=names, which_type="all", replace_inf=False,
             impute_zero_rated_nan=False, remove_nan=False, ret_names=True)
@@ -429,6 +444,44 @@ def check_export(run):
                     "user rating in container order",
                     payload={"kind": "export"},
                     theorem="C15 (export round trip)")
+    # a directory of containers whose file-name order is the opposite of the
+    # order of the data hashes they hold: rows still pair with their ratings
+    try:
+        multi = d / "multi"
+        multi.mkdir()
+        two = sorted([kept[0], kept[2]],
+                     key=lambda ii: rio.hash_file(ii.path))
+        plan = [("b.h5", two[0], 2), ("a.h5", two[1], 7)]
+        for fn_, ii, rr in plan:
+            rio.save_hdf5(multi / fn_, ii, user_rate=rr, user_name="verif",
+                          user_comment=fn_)
+        rmm = rio.RateManager(multi)
+        outm = d / "ts_multi"
+        rmm.export_training_set(outm)
+        Xm, ym = IndentationRater.load_training_set(
+            path=outm, names=names, which_type="all", replace_inf=False,
+            impute_zero_rated_nan=False, remove_nan=False)
+        run.case({"export": "directory-of-containers"}, kind="export")
+        wantm = {}
+        for fn_, ii, rr in plan:
+            wantm[float(rr)] = np.array([float("%.2e" % v) for v in
+                                         IndentationRater.compute_features(ii)])
+        okm = Xm.shape[0] == 2 and sorted(np.atleast_1d(ym)) == [2.0, 7.0] \
+            and all(np.array_equal(np.nan_to_num(Xm[j], nan=-7.0),
+                                   np.nan_to_num(wantm[float(ym[j])],
+                                                 nan=-7.0))
+                    for j in range(2))
+        if not okm:
+            run.failing(SITE_X, "export-directory-of-containers",
+                        "a directory of two rating containers exported as a "
+                        "training set: the feature rows are not paired with "
+                        f"their curves' ratings (responses {list(ym)})",
+                        payload={"kind": "rerun"},
+                        theorem="C15 (export round trip)")
+    except BaseException as e:
+        run.failing(SITE_X, "export-directory-of-containers",
+                    f"raised {type(e).__name__}: {e}",
+                    payload={"kind": "rerun"})
     # the container changes while the manager is alive: a stored curve is
     # rated again; the next export of the SAME manager must hold the ratings
     # that are in the container now
@@ -438,7 +491,11 @@ def check_export(run):
                       user_comment="c1")
         out2 = d / "ts_out2"
         rm.export_training_set(out2)
-        order2 = [r["comment"] for r in rio.RateManager(h5).ratings]
+        with h5py.File(h5, "r") as hh:
+            order2 = [hh["analysis"][kk].attrs["user comment"]
+                      for kk in hh["analysis"]]
+        order2 = [o.decode() if isinstance(o, bytes) else str(o)
+                  for o in order2]
         X2, y2 = IndentationRater.load_training_set(
             path=out2, names=names, which_type="all", replace_inf=False,
             impute_zero_rated_nan=False, remove_nan=False)
